@@ -133,7 +133,8 @@ def build(spec):
 
 def dump(d):
     """spec of a real t2data object (every attribute the property lists)"""
-    s = {'title': d.title, 'simulator': d.simulator, 'sections': list(d._sections), 'end_keyword': d.end_keyword}
+    s = {'title': d.title, 'simulator': d.simulator, 'sections': list(d._sections), 'end_keyword': d.end_keyword,
+         'extra_precision': list(d.extra_precision), 'echo': bool(d.echo_extra_precision)}
     rocks = []
     for rt in d.grid.rocktypelist:
         r = {'name': rt.name, 'nad': py(rt.nad), 'density': py(rt.density), 'porosity': py(rt.porosity),
@@ -384,7 +385,7 @@ def canon(spec, cfg):
     recm = 'multi_autough2' if autough2 else 'multi'
     m = {}
     for k, v in spec.get('multi', {}).items():
-        if k in F.main[recm][0] and v is not None:
+        if k in F.main[recm][0] and v is not None and not (isinstance(v, str) and v.strip() == ''):
             m[k] = fv(recm, k, v)
             if k == 'eos': m[k] = m[k].strip()
     out['multi'] = m
